@@ -920,6 +920,9 @@ class Executor:
             if isinstance(v, Closure):
                 v.parent = fr["__fn"].v
             return v
+        if re.match(r"^[A-Za-z<][\w:<>, &']*::[\w<>:, &']+$", o) and not re.match(r"^_\d+", o):
+            # a function item used as a value (e.g. iter.map(Self::f)): printed as its bare path
+            return FnPtr(o)
         return self.read_place(fr, parse_place(o))
 
     def const(self, c):
